@@ -2,7 +2,7 @@
 from .lib.match import *
 from .lib.paths import explore
 
-SELECT = r'^bluetoe::csc::details::control_point_handler::|^bluetoe::mixin_write_indication_control_point_handler::call_write_handler$'
+SELECT = r'^bluetoe::csc::details::|^bluetoe::mixin_write_indication_control_point_handler::call_write_handler$'
 UNITS = lambda u: u in ('w_inst_svc',) or u.startswith('t_services_cscs')
 CP = 'bluetoe::csc::details::control_point_handler::'
 FLAG = 'procedure_in_progress_'
@@ -49,6 +49,30 @@ def pair_args(ret):
 
 def is_success(n):
     return n.n == 'success' or (n.v == 0 and n.n is None)
+
+
+def echoed(facts, f, depth=0):
+    """constant values stored to out_buffer[1] by f, following one level of helper calls that get the opcode as an argument"""
+    out = []
+    buf = next((p['n'] for p in f.params if 'uint8_t *' in (p.get('t') or '') and 'const' not in (p.get('t') or '')), None)
+    for tgt, op, val, st in stores(f.body):
+        e = as_elem(tgt)
+        if e is not None and buf and is_name(e[0], buf) and cval(e[1]) == 1:
+            out.append(cval(val))
+    if depth == 0:
+        for c in f.body.find(lambda n: n.d.get('call')):
+            nm = c.cn or (c.callee().n if c.callee() is not None and not isinstance(c.callee(), str) else None)
+            if not nm or not buf or not any(is_name(a, buf) for a in c.args()):
+                continue
+            for h in [g for g in facts.functions if g.name == nm and g.cls == f.cls and g.kind in ('pattern', 'plain')][:1]:
+                hb = next((p['n'] for i, p in enumerate(h.params) if i < len(c.args()) and is_name(c.args()[i], buf)), None)
+                for tgt, op, val, st in stores(h.body):
+                    e = as_elem(tgt)
+                    if e is not None and hb and is_name(e[0], hb) and cval(e[1]) == 1:
+                        v = strip_casts(val)
+                        pi = next((i for i, p in enumerate(h.params) if p['n'] and v.n == p['n']), None)
+                        out.append(cval(c.args()[pi]) if pi is not None and pi < len(c.args()) else cval(val))
+    return out
 
 
 def run(chk, facts, tier):
@@ -172,3 +196,21 @@ def run(chk, facts, tier):
                     ok = is_name(v, 'current_opcode_')
                     what = 'default'
                 chk.instance('response-clears-and-echoes', fn, 'out_buffer[1] = %s in %s' % (v.text(), what), ok, '' if ok else 'response does not carry the request opcode', node=s, key='echo ' + what)
+        # responses produced by the sensor location handlers the dispatcher delegates to: each echoes the opcode of the case it is called from
+        for c in fn.body.find(lambda n: n.d.get('call')):
+            g = [o for cnd, o in fn.guards(c) if isinstance(o, tuple) and o[0] == 'case']
+            nm = c.cn or (c.callee().n if c.callee() is not None and not isinstance(c.callee(), str) else None)
+            if not g or not nm or not nm.endswith('_response'):
+                continue
+            want = g[0][1]
+            impls = [f for f in facts.functions if f.name == nm and f.q.startswith('bluetoe::csc::details::') and f.kind in ('pattern', 'plain')]
+            chk.require(bool(impls), 'no implementation of %s found' % nm)
+            seen = set()
+            for f in impls:
+                if (f.q, f.line) in seen:
+                    continue
+                seen.add((f.q, f.line))
+                vals = echoed(facts, f)
+                ok = bool(vals) and all(v == want for v in vals)
+                chk.instance('response-clears-and-echoes', f, '%s::%s echoes opcode %s (case %s)' % (f.cls.split('::')[-1], nm, vals, want), ok,
+                             '' if ok else 'the response to request opcode %s carries opcode %s: the client cannot match it to its request' % (want, vals), key='echo %s::%s' % (f.cls.split('::')[-1], nm))
